@@ -141,8 +141,10 @@ pub(crate) mod b {
             for (w, h) in sizes {
                 for nfrag in 0..3usize {
                     // colour / font / stroke settings only feed the style sheet: the child list must not depend on them
-                    let strings = [("white", "black", "monospace"), ("none", "red", "a b"), ("transparent", "none", ""), ("#fff", "rgba(0,0,0,0)", "\"x\"")];
-                    let (bg, fg, font) = strings[(sw as usize + nfrag) % 4];
+                    // (the last triple is hostile: if a settings string ever reached an attribute, sauron would write it verbatim)
+                    let strings = [("white", "black", "monospace"), ("none", "red", "a b"), ("transparent", "none", ""), ("#fff", "rgba(0,0,0,0)", "\"x\""),
+                        ("w\" onload=\"mk()\"><script>", "r\" onload=\"mk()\"><script>", "f\" onload=\"mk()\"><script>")];
+                    let (bg, fg, font) = strings[(sw as usize + nfrag + (w as usize % 3)) % 5];
                     let st = Settings {
                         include_backdrop: sw & 1 != 0,
                         include_styles: sw & 2 != 0,
@@ -187,11 +189,27 @@ pub(crate) mod b {
                     }
                     let got: Vec<&str> = ch.iter().map(|c| *c.tag().unwrap_or(&"?")).collect();
                     let mut ok = ok_root && got == want;
-                    if st.include_styles {
+                    // C02 / C08: no attribute value of the root or of a child carries a character that would end it
+                    let mut elements: Vec<&Node<()>> = vec![&node];
+                    elements.extend(ch.iter().filter(|c| c.tag() != Some(&"style") && c.tag() != Some(&"defs")));
+                    for e in elements {
+                        for att in e.attributes().unwrap_or(&[]) {
+                            for v in att.value() {
+                                if let Some(val) = v.get_simple() {
+                                    let text = val.to_string();
+                                    if text.contains('"') || text.contains('<') || text.contains('>') || text.contains('&') {
+                                        ok = false;
+                                        println!("BOUNDED-WITNESS attribute {} of {:?} carries {:?}", att.name(), e.tag(), text);
+                                    }
+                                }
+                            }
+                        }
+                    }
+                    if ok && st.include_styles {
                         let css = ch[0].children().first().and_then(|t| t.as_text()).unwrap_or("");
                         ok = ok && (legend.is_empty() || css.ends_with(&legend));
                     }
-                    if st.include_backdrop {
+                    if ok && st.include_backdrop {
                         let b = &ch[want.iter().position(|t| *t == "rect").unwrap()];
                         ok = ok
                             && text_of(b, "class").as_deref() == Some("backdrop")
